@@ -2,7 +2,7 @@
    is proved to handle losslessly (C11). *)
 From CV Require Import Model.Base Model.Events Model.Contract.
 From CV Require Model.Sched Model.Normalize.
-From CV Require Proofs.SchedP4 Proofs.SchedP7 Proofs.NormalizeP2 Proofs.NormalizeP3.
+From CV Require Proofs.SchedP4 Proofs.SchedP7 Proofs.NormalizeP2 Proofs.NormalizeP3 Proofs.NormalizeP4h.
 From Coq Require Import Permutation.
 
 (* every complete run of the scheduler model, however its events are tagged with metadata, passes through the
@@ -24,4 +24,16 @@ Theorem runner_stream_never_trips_normalize cf ls s tr (es : list mev) :
 Proof.
   intros H N1 N2 E. apply NormalizeP3.contract_implies_accepts. rewrite E.
   exact (proj1 (SchedP7.exec_satisfies_contract cf ls s tr H N1 N2)).
+Qed.
+
+(* ... and what the inner writer receives for a complete run of the scheduler model is accepted by the SEQUENTIAL
+   contract: features contiguous, rules contiguous inside their feature, attempts contiguous, brackets nested,
+   run-Finished last *)
+Theorem runner_stream_is_normalized_into_sequential_order cf ls s tr (es : list mev) :
+  Sched.exec cf ls = Some (s, tr) -> NoDup (SchedP7.feature_ids ls) -> NoDup (SchedP4.inserted_ids ls) ->
+  Sched.pc s = Sched.Done -> map snd es = tr ->
+  normalized (map snd (concat (Normalize.nrun es))) = true.
+Proof.
+  intros H N1 N2 D E. apply NormalizeP4h.normalize_output_is_sequential. rewrite E.
+  exact (proj2 (SchedP7.exec_satisfies_contract cf ls s tr H N1 N2) D).
 Qed.
